@@ -452,8 +452,8 @@ def run_history(sc, hspec, ireq, max_paths=12000, final_all=False, truncate=Fals
     (final_all: the last request's refused / aborted paths as well, for statements about what must be accepted or refused)"""
     steps = hspec['steps']
 
-    def rec(i, world, pc, trail):
-        if i == len(steps):
+    def rec(i, world, pc, trail, stop_at=None):
+        if i == (len(steps) if stop_at is None else stop_at):
             yield trail
             return
         spec = dict(steps[i], **hspec['cfg'])
@@ -486,11 +486,36 @@ def run_history(sc, hspec, ireq, max_paths=12000, final_all=False, truncate=Fals
         for fin in it:
             p = W.Path(fin)
             if p.kind == 'ok':
-                yield from rec(i + 1, p.world, p.pc, trail + [(req, funds, p)])
+                yield from rec(i + 1, p.world, p.pc, trail + [(req, funds, p)], stop_at)
             elif last and final_all and p.kind != 'oob':
                 yield trail + [(req, funds, p)]
     n = 0
     from . import entry as EN
+    if truncate and len(steps) >= 2:
+        # budgeted exploration that still visits every accepted prefix: all histories up to the last request first, then the last request
+        # from each of them with an equal share of the budget (its accepted paths first)
+        import itertools as _it
+        prefixes = []
+        for p0 in EN.run_instantiate(sc, ireq):
+            if p0.kind != 'ok':
+                continue
+            for tr in rec(0, p0.world, p0.pc, [(ireq, [], p0)], stop_at=len(steps) - 1):
+                prefixes.append(tr)
+                if len(prefixes) > max_paths:
+                    sc.shape['history_truncated'] = True
+                    break
+        if not prefixes:
+            return
+        per = max(6, max_paths // len(prefixes))
+        for tr in prefixes[:max_paths]:
+            w_, pc_ = tr[-1][2].world, tr[-1][2].pc
+            got = list(_it.islice(rec(len(steps) - 1, w_, pc_, tr), 3 * per + 1))
+            if len(got) > per:
+                sc.shape['history_truncated'] = True
+            got.sort(key=lambda t: 0 if t[-1][2].kind == 'ok' else 1)
+            for t in got[:per]:
+                yield t
+        return
     for p0 in EN.run_instantiate(sc, ireq):
         if p0.kind != 'ok':
             continue
